@@ -96,6 +96,10 @@ def strategy():
                     "base": st.integers(0, 63),
                     "keep": st.lists(st.booleans(), min_size=1, max_size=12),
                     "extra": st.lists(st.tuples(st.integers(0, 200), st.booleans()), max_size=2),
+                    # declared version of the requested kind: older / undeclared versions imply features through
+                    # the documented upgrade rules, which selection has to honour
+                    "version": st.sampled_from([3, 3, 3, 3, 2, 1, None]),
+                    "old": st.lists(st.sampled_from(["CONTINUOUS_NUMBERS", "DISCRETE_NUMBERS", "NUMERIC_FLUENTS", "ACTIONS_COST", "OVERSUBSCRIPTION", "CONTINUOUS_TIME", "DISCRETE_TIME"]), max_size=3, unique=True),
                 }
             ),
             "opt": st.one_of(st.none(), st.sampled_from(OPT)),
@@ -189,6 +193,21 @@ def check(ctx, case):
             extra.add(U[x[0] % len(U)])
     feats = {x for i, x in enumerate(base) if keep[i % len(keep)]} | extra
     kind = ProblemKind(feats, version=3)
+    kv = kspec.get("version", 3)
+    if kv != 3:
+        from checks.c33 import ADDED_V2, ADDED_V3, DEPRECATED_V2
+
+        vmax = 3 if kv is None else kv
+        f2 = {x for x in feats if not (x in ADDED_V3 and vmax < 3) and not (x in ADDED_V2 and vmax < 2) and x not in DEPRECATED_V2}
+        f2 |= {x for x in kspec.get("old", []) if not (x in DEPRECATED_V2 and kv is not None and kv >= 2)}
+        if kv is None:
+            f2 -= DEPRECATED_V2 if any(x in ADDED_V2 | ADDED_V3 for x in f2) else set()
+        try:
+            kind = ProblemKind(f2, version=kv)
+            feats = f2
+            ctx.cls(f"kind-version:{kv}")
+        except Exception:
+            kind = ProblemKind(feats, version=3)
 
     opt = OptimalityGuarantee[case["opt"]] if case["opt"] else None
     any_ = AnytimeGuarantee[case["any"]] if case["any"] else None
